@@ -868,6 +868,23 @@ fn freshness__repeated_calls_never_repeat() {
             n += 1;
         }
     }
+    // instances created back to back (same clock tick, same process, same thread) are independent: the same FIRST call
+    // on each of them never gives the same result
+    {
+        let fresh: Vec<Covercrypt> = (0..8).map(|_| Covercrypt::default()).collect();
+        let (mut first_secrets, mut first_setups) = (BTreeSet::new(), BTreeSet::new());
+        for c in &fresh {
+            let (ss, _) = c.encaps(&mpk, &ap("SEC::LOW && DPT::FIN")).unwrap();
+            vchk!(first_secrets.insert(ss.to_vec()), "C16: two instances created one after the other produce the same first encapsulated secret (their random streams are not independent)");
+            n += 1;
+        }
+        for _ in 0..4 {
+            let c = Covercrypt::default();
+            let (m, _) = cc_keygen(&c, false).unwrap();
+            vchk!(first_setups.insert(m.serialize().unwrap().to_vec()), "C16: two instances created one after the other set up the same master key");
+            n += 1;
+        }
+    }
     let usk = cc.generate_user_secret_key(&mut msk, &ap("SEC::TOP && DPT::FIN")).unwrap();
     let (mut nonces, mut hn, mut hs) = (BTreeSet::new(), BTreeSet::new(), BTreeSet::new());
     for _ in 0..reps {
@@ -995,7 +1012,7 @@ fn recaps__preserves_the_audience() {
         // mixed flavours: classic encapsulation targeting a hybridized right as well
         "(SEC::TOP && DPT::FIN) || (SEC::LOW && DPT::HR)", "(SEC::TOP && DPT::MKG) || DPT::RD"];
     let users = ["SEC::TOP && DPT::FIN", "DPT::HR", "SEC::LOW && DPT::MKG", "SEC::TOP && DPT::MKG", "DPT::RD", "SEC::LOW && DPT::FIN"];
-    for scenario in 0..5 {
+    for scenario in 0..7 {
         let cc = Covercrypt::default();
         let (mut msk, mpk0) = cc_keygen(&cc, false).unwrap();
         let mut keys: Vec<UserSecretKey> = users.iter().map(|u| cc.generate_user_secret_key(&mut msk, &ap(u)).unwrap()).collect();
@@ -1007,7 +1024,10 @@ fn recaps__preserves_the_audience() {
             1 => { model.rekey(&rights_of(&msk.access_structure, "DPT::FIN", true)); cc.rekey(&mut msk, &ap("DPT::FIN")).unwrap() }
             2 => { let r = rights_of(&msk.access_structure, "DPT::FIN", true); model.rekey(&r); model.prune(&r); cc.rekey(&mut msk, &ap("DPT::FIN")).unwrap(); cc.prune_master_secret_key(&mut msk, &ap("DPT::FIN")).unwrap() }
             3 => { msk.access_structure.disable_attribute(&QualifiedAttribute::new("DPT", "HR")).unwrap(); let m = cc.update_msk(&mut msk).unwrap(); model.update(&omega_of(&msk.access_structure)); m }
-            _ => { msk.access_structure.del_attribute(&QualifiedAttribute::new("DPT", "HR")).unwrap(); let m = cc.update_msk(&mut msk).unwrap(); model.update(&omega_of(&msk.access_structure)); m }
+            4 => { msk.access_structure.del_attribute(&QualifiedAttribute::new("DPT", "HR")).unwrap(); let m = cc.update_msk(&mut msk).unwrap(); model.update(&omega_of(&msk.access_structure)); m }
+            // an attribute shared by classic, mixed and all-hybridized originals is disabled / deleted: the other targets survive
+            5 => { msk.access_structure.disable_attribute(&QualifiedAttribute::new("DPT", "FIN")).unwrap(); let m = cc.update_msk(&mut msk).unwrap(); model.update(&omega_of(&msk.access_structure)); m }
+            _ => { msk.access_structure.del_attribute(&QualifiedAttribute::new("DPT", "FIN")).unwrap(); let m = cc.update_msk(&mut msk).unwrap(); model.update(&omega_of(&msk.access_structure)); m }
         };
         // half of the keys are refreshed
         let mut mkeys: Vec<MKey> = users.iter().map(|u| MKey { chains: BTreeMap::new() }).collect();
@@ -1099,6 +1119,12 @@ fn signature__structural_tampering_is_rejected() {
     { let mut k = k1.clone(); k.signature = k2.signature; mutants.push(("signature of another issued key".into(), k)); }
     { let mut c = c1.clone(); c.extend(chains(&k2)); mutants.push(("splice: rights of two issued keys".into(), rebuild(&k1, c))); }
     mutants.push(("key issued by another master key".into(), kf));
+    // every tampered key is presented as built and as an attacker would send it: through its serialized form
+    let wire: Vec<(String, UserSecretKey)> = mutants.iter().filter_map(|(name, m)| {
+        let b = m.serialize().ok()?;
+        UserSecretKey::deserialize(&b).ok().map(|k| (format!("{name} (sent in serialized form)"), k))
+    }).collect();
+    mutants.extend(wire);
     for (name, m) in mutants.iter_mut() {
         for keep in [true, false] {
             let before = (m.serialize().unwrap().to_vec(), msk.serialize().unwrap().to_vec());
